@@ -30,7 +30,15 @@ func checkC11(c *Ctx) {
 	fn := r.Accept
 	g := paths.New(c.P, fn, 2)
 	g.Expand = func(callee *ssa.Function, site ssa.CallInstruction) bool {
-		return recvNamed(callee) == "Server" // the session lookup helper
+		if recvNamed(callee) == "Server" { // the session lookup helper, refusal helpers
+			return true
+		}
+		// plain helper functions of the package, except those that are events of the rules
+		if callee.Signature.Recv() == nil && callee.Pkg != nil && callee.Pkg.Pkg.Path() == pkgService &&
+			callee != r.SockWrite && callee.Name() != "getConnectMessage" && callee.Name() != "getMessageBuffer" && callee.Name() != "writeMessageBuffer" {
+			return true
+		}
+		return false
 	}
 	entry := []paths.Node{g.Entry()}
 	pos := c.P.Pos(fn.Pos())
@@ -80,26 +88,29 @@ func checkC11(c *Ctx) {
 	// P2/P8: CONNACK codes
 	sockWrite := nodeM(mAnd(mCallee(r.SockWrite), mArgDyn(1, "ConnackMessage")))
 	setCode := func(k int64) func(paths.Node) bool {
-		return nodeM(func(call ssa.CallInstruction) bool {
-			if !ir.IsMethod(call.Common(), pkgMessage, "ConnackMessage", "SetReturnCode") {
+		return func(n paths.Node) bool {
+			call := paths.CallAt(n)
+			if call == nil || !ir.IsMethod(call.Common(), pkgMessage, "ConnackMessage", "SetReturnCode") {
 				return false
 			}
+			// the code may reach the setter through a parameter of a refusal helper
+			arg := frameValue(n.F, call.Common().Args[1])
 			if k < 0 {
 				// the decoded error's own code: the argument is the result of the type assertion to ConnackCode
-				ex, ok := ir.SeeThrough(call.Common().Args[1]).(*ssa.Extract)
+				ex, ok := arg.(*ssa.Extract)
 				if !ok {
 					return false
 				}
 				ta, ok := ex.Tuple.(*ssa.TypeAssert)
 				return ok && namedName(ta.AssertedType) == "ConnackCode"
 			}
-			kc, ok := call.Common().Args[1].(*ssa.Const)
+			kc, ok := arg.(*ssa.Const)
 			if !ok || kc.Value == nil {
 				return false
 			}
 			v, _ := constant.Int64Val(constant.ToInt(kc.Value))
 			return v == k
-		})
+		}
 	}
 	type scen struct {
 		name string
@@ -223,6 +234,22 @@ func (c *Ctx) errNonNilAt(fn *ssa.Function, ret *ssa.Return, cell *ssa.Alloc) (b
 	var stored ssa.Value = v
 	if u, ok := v.(*ssa.UnOp); ok && cell != nil && u.X == ssa.Value(cell) {
 		stored = nil
+		// `err = x; return nil, err`: the value assigned last in the returning block is what is returned
+		blk := ret.Block()
+		for i := ir.InstrIndex(ret) - 1; i >= 0; i-- {
+			st, ok := blk.Instrs[i].(*ssa.Store)
+			if !ok || st.Addr != ssa.Value(cell) {
+				continue
+			}
+			if u2, ok := st.Val.(*ssa.UnOp); ok && u2.X == ssa.Value(cell) {
+				continue // named-result spill of the cell's own value
+			}
+			stored = st.Val
+			if nonNilValue(stored) {
+				return true, "constant error value assigned just before the return"
+			}
+			break
+		}
 	}
 	for _, b := range fn.Blocks {
 		iff, ok := b.Instrs[len(b.Instrs)-1].(*ssa.If)
@@ -255,7 +282,7 @@ func (c *Ctx) errNonNilAt(fn *ssa.Function, ret *ssa.Return, cell *ssa.Alloc) (b
 		}
 		// the tested value must be what is returned: same SSA value, or a load of the cell with no store to the cell between the test and the return
 		tested := operand
-		if u, ok := operand.(*ssa.UnOp); ok && cell != nil && u.X == ssa.Value(cell) {
+		if u, ok := operand.(*ssa.UnOp); ok && cell != nil && u.X == ssa.Value(cell) && stored == nil {
 			if lv := ir.LocalLoadValue(u); lv != nil {
 				tested = lv
 			}
